@@ -15,4 +15,4 @@ def run(ctx):
                         "capacities (Cap) are compared only as structure (drift), the property does not fix a growth policy"]
 
 def replay(ctx, rp):
-    return vlib.generic_replay(ctx, rp)
+    return vlib.replay_any(ctx, rp)
